@@ -49,6 +49,28 @@ def _operand_floor(ev):
     return 1e-4 * S
 
 
+def _finite(c):
+    """all entries finite; object arrays (Fraction operands, ...) are converted first, unconvertible ones count as finite"""
+    try:
+        return bool(np.all(np.isfinite(c)))
+    except TypeError:
+        try:
+            return bool(np.all(np.isfinite(np.asarray(c, dtype=complex))))
+        except Exception:
+            return True
+
+
+def _epsfac(*groups):
+    """tolerances are stated for double precision; single (half) precision operands or results scale them by eps/eps_double"""
+    fac = 1.0
+    for g in groups:
+        for a in g:
+            dt = getattr(a, 'dtype', None)
+            if dt is not None and dt.kind in 'fc' and dt.itemsize // (2 if dt.kind == 'c' else 1) < 8:
+                fac = max(fac, float(np.finfo(dt).eps) / 2.220446049250313e-16)
+    return fac
+
+
 class ImmutabilityMonitor(Monitor):
     """C14(a): no non-in-place call modifies the coefficient data of its arguments; in-place operators modify only
     the left operand; pb_* only their `out=` accumulators; tracer calls leave the user's objects untouched."""
@@ -139,7 +161,7 @@ class DirectionMonitor(Monitor):
         ua = ev.utpm_args()
         if not ua:
             return
-        if not all(np.all(np.isfinite(c)) for (_, _, c) in ev.snaps):
+        if not all(_finite(c) for (_, _, c) in ev.snaps):
             self.ctx.skip('nonfinite-input'); return
         Ps = {c.shape[1] for (_, _, c) in ua}
         if len(Ps) != 1:
@@ -150,7 +172,7 @@ class DirectionMonitor(Monitor):
         full = _datas(res if ev.name not in INPLACE else ev.args[0])
         if full is None:
             self.ctx.skip('no-utpm-result:' + ev.name); return
-        if not all(np.all(np.isfinite(a)) for a in full):
+        if not all(_finite(a) for a in full):
             self.ctx.skip('nonfinite-result'); return
         f = getattr(ev.owner, ev.name)
         for p in range(P):
@@ -167,7 +189,7 @@ class DirectionMonitor(Monitor):
                     self.ctx.violation('direction:%s:shape' % ev.name, {'call': ev.name, 'direction': p, 'full': a.shape, 'single': b.shape}); return
                 s = _scale(b, _operand_floor(ev))
                 err = np.abs(a[:, p:p + 1] - b).reshape(b.shape[0], -1).max(axis=1) if b.size else np.zeros(b.shape[0])
-                if not np.all(err <= self.TOL * s):
+                if not np.all(err <= self.TOL * _epsfac(full, [c for (_, _, c) in ev.snaps]) * s):
                     d_bad = int(np.argmax(err / s))
                     self.ctx.violation('direction:%s:value' % ev.name, {'call': ev.name, 'direction': p, 'P': P, 'first_bad_order': d_bad,
                                                                        'err_over_scale': float(np.max(err / s))}); return
@@ -189,7 +211,7 @@ class TruncationMonitor(Monitor):
         ua = ev.utpm_args()
         if not ua:
             return
-        if not all(np.all(np.isfinite(c)) for (_, _, c) in ev.snaps):
+        if not all(_finite(c) for (_, _, c) in ev.snaps):
             self.ctx.skip('nonfinite-input'); return
         Ds = {c.shape[0] for (_, _, c) in ua}
         if len(Ds) != 1:
@@ -202,7 +224,7 @@ class TruncationMonitor(Monitor):
         full = _datas(res if ev.name not in INPLACE else ev.args[0])
         if full is None:
             self.ctx.skip('no-utpm-result:' + ev.name); return
-        full_finite = all(np.all(np.isfinite(a)) for a in full)
+        full_finite = all(_finite(a) for a in full)
         f = getattr(ev.owner, ev.name)
         orders = range(1, D) if (self.all_orders or D <= 6) else sorted({1, D - 1, 1 + (D * 7919) % (D - 1)})
         for Dp in orders:
@@ -234,7 +256,7 @@ class TruncationMonitor(Monitor):
                     self.ctx.violation('truncation:%s:shape' % ev.name, {'call': ev.name, 'D': D, 'Dp': Dp, 'full': a.shape, 'truncated': b.shape}); return
                 s = _scale(b, _operand_floor(ev))
                 err = np.abs(a[:Dp] - b).reshape(Dp, -1).max(axis=1) if b.size else np.zeros(Dp)
-                if not np.all(err <= self.TOL * s):
+                if not np.all(err <= self.TOL * _epsfac(full, [c for (_, _, c) in ev.snaps]) * s):
                     self.ctx.violation('truncation:%s:value' % ev.name, {'call': ev.name, 'D': D, 'Dp': Dp, 'first_bad_order': int(np.argmax(err / s)),
                                                                         'err_over_scale': float(np.max(err / s))}); return
                 self.ctx.noise['truncation'] = max(self.ctx.noise.get('truncation', 0.0), float(np.max(err / s)))
@@ -299,7 +321,7 @@ class ZerothMonitor(Monitor):
             return self._compare(ev, res)
         if name not in NP_TABLE and name not in PARTIAL:
             self.ctx.skip('no-numpy-counterpart:' + name); return
-        nonfinite = not all(np.all(np.isfinite(c)) for (_, _, c) in ev.snaps)
+        nonfinite = not all(_finite(c) for (_, _, c) in ev.snaps)
         if nonfinite and name not in DATA_MOVEMENT:
             self.ctx.skip('nonfinite-input'); return
         Ps = {c.shape[1] for (_, _, c) in ua}
@@ -354,7 +376,7 @@ class ZerothMonitor(Monitor):
                 for a_ in args:
                     if isinstance(a_, np.ndarray) and a_.size and a_.dtype.kind in 'fc':
                         S *= max(1.0, float(np.max(np.abs(a_)))) * max(1.0, float(a_.shape[-1] if a_.ndim else 1))
-                if r.size and not np.max(np.abs(g - r)) <= self.TOL * max(sc, 1e-3) + 1e-14 * S:
+                if r.size and not np.max(np.abs(g - r)) <= (self.TOL * max(sc, 1e-3) + 1e-14 * S) * _epsfac([g], [c for (_, _, c) in ev.snaps]):
                     self.ctx.violation('zeroth:%s:value' % name, {'call': name, 'output': k, 'direction': p, 'P': P, 'err': float(np.max(np.abs(g - r)) / sc)}); return
             if single and name not in PARTIAL and name != 'argmax':
                 r = refs[0]
